@@ -71,7 +71,7 @@ CLAIMED = {
              'documented key (parts / {is_absolute, normalized_segments} / as_pct_str / derived raw bytes) and are applied symmetrically to both operands, so == is the '
              'kernel of a key function (reflexive, symmetric, transitive given the component relations); the *Parts field types put Option exactly where presence counts; '
              'totality: every panic entry reachable from any eq in the instance graph is discharged by an automata lemma over the compiled languages (TRIPLETS) or a named reason, '
-             'and slice panics in the accessor layer by the C02/C03 obligations. Equality between two different library types (owned vs borrowed, full vs reference; 64 impls) is the equality of borrowed library types applied to total views of both operands, in order — never the plain-text comparison (views evaluated with the conversion evaluator of C13).',
+             'and slice panics in the accessor layer by the C02/C03 obligations. Equality between two different library types (owned vs borrowed, full vs reference; 64 impls) is the equality of borrowed library types applied to total views of both operands, in order — never the plain-text comparison (views evaluated with the conversion evaluator of C13). What the keys rest on is run here as well: the span obligations of parts() / reference_parts() (Engine B, as under C02) and the fold step of the normalised segment sequence (as under C09).',
         design_ref='DESIGN.md §4 C07, Engine C (C-key, C-panic), Engine A, §10.18',
         note='NOT decided: "exactly when" for all pairs (run-time semantics of dot-segment normalisation), termination of iterator loops. Relies on hand model of pct-str Bytes (iv/pct.py). '
              'Genuine defect F7 (== panicked on %80, equated %C0%AF with %2F) was repaired in /repo by a fix: commit; the check fails with witnesses on the pre-fix tree.',
@@ -179,7 +179,7 @@ CLAIMED = {
              'every later call on self is a frame-preserving mutator (C05/C09 frame keeps the scheme) and no set_scheme(None) is reachable, so the unchecked re-typing of the result as Uri/Iri '
              'is justified (with C13: reference ∩ has-scheme = full, and C04: mutators preserve validity); ordering: on every CFG path all calls that change which of scheme/authority is present precede every write of the path (the disambiguating shield is decided in the final context); '
              'RFC 3986 5.2.2 case analysis: every CFG path is walked with a path-sensitive evaluation of its guards, the treatment of the path (keep the base path / normalise the own path / merge) is read off its calls, and the language of reference paths '
-             'reaching each treatment is compared by automata equality with the RFC table (keep iff path = "", own iff it starts with "/", merge otherwise; own when the reference has a scheme or authority); merge sub-rule (RFC 3986 5.2.3) on every merging CFG path, with terms restricted to the definitions of that path: the merge buffer starts from "/" only where the base is established to have an authority AND an empty path, from parent_or_empty() of the base path only where that case is excluded; exactly the segments() of the reference path are appended to THAT buffer (symbolic_append, whose meaning C10 decides) and its path becomes the result path; the base is only read; URI and IRI twins agree.',
+             'reaching each treatment is compared by automata equality with the RFC table (keep iff path = "", own iff it starts with "/", merge otherwise; own when the reference has a scheme or authority); merge sub-rule (RFC 3986 5.2.3) on every merging CFG path, with terms restricted to the definitions of that path: the merge buffer starts from "/" only where the base is established to have an authority AND an empty path, from parent_or_empty() of the base path only where that case is excluded; exactly the segments() of the reference path are appended to THAT buffer with symbolic_append — whose dispatch ("." nothing, ".." pop, other push) and loop / tail rule are run here as under C10 — and its path becomes the result path; the base is only read; URI and IRI twins agree.',
         design_ref='DESIGN.md §4 C06, §10.9, §10.15',
         note='NOT decided: that the text written on each path equals the RFC 3986 §5.2.2 result (merge + remove_dot_segments over run-time segment lists), nor idempotence; those quantify over run-time values.',
         technique='instance-graph reachability + CFG path enumeration (typestate) + sibling agreement (static analysis)',
